@@ -68,12 +68,8 @@ class Report:
     def finish(self) -> int:
         from .model import AnalysisError
 
-        for rid, r in self.rules.items():
-            if r["instances"] < r["floor"]:
-                raise AnalysisError(
-                    f"rule {self.prop}.{rid} matched {r['instances']} instance(s), "
-                    f"fewer than the {r['floor']} confirmed by hand: the rule would pass vacuously"
-                )
+        short = [f"rule {self.prop}.{rid} matched {r['instances']} instance(s), fewer than the {r['floor']} confirmed by hand"
+                 for rid, r in self.rules.items() if r["instances"] < r["floor"]]
         known = load_known()
         kmap = {(k["property"], k["rule"], k["construct"]): k for k in known.get("known", [])}
         new: list[dict[str, Any]] = []
@@ -105,6 +101,11 @@ class Report:
                 print(f"  {v['loc']}: {self.prop}.{v['rule']} {v['construct']}: {v['message']}")
                 print(f"VIOLATION property={self.prop} replay={path}")
             rc = 1
+        if short and not new:
+            # nothing was violated but a rule found fewer instances than confirmed by hand: it would pass vacuously
+            raise AnalysisError("; ".join(short) + ": the rule would pass vacuously")
+        for sh in short:
+            print(f"NOTE: {sh} (reported together with the violations above)")
         if not quiet:
             self._write_evidence(len(new), len(matched))
         n_ob = len(self.obligations)
